@@ -131,6 +131,26 @@ fn enum_lengths(_t: Tier, shard: usize, n: usize, f: &mut dyn FnMut(String) -> b
     }
 }
 
+/// every two-byte character U+0080..U+07FF and samples of three- and four-byte characters, at the
+/// first / middle / last position of a label and as a whole label: all must be refused
+fn enum_non_ascii(_t: Tier, shard: usize, n: usize, f: &mut dyn FnMut(String) -> bool) {
+    let mut chars: Vec<char> = (0x80u32..0x800).filter_map(char::from_u32).collect();
+    chars.extend((0x800u32..0x3000).step_by(37).filter_map(char::from_u32));
+    chars.extend([0xFF21u32, 0xFF41, 0xFF10, 0x1F600, 0x10400, 0x1D7CE, 0x2170, 0x00AA, 0x00BA].iter().filter_map(|c| char::from_u32(*c)));
+    let mut i = 0;
+    for c in chars {
+        i += 1;
+        if !mine(i, shard, n) {
+            continue;
+        }
+        for s in [format!("{}", c), format!("a{}a", c), format!("{}a", c), format!("a{}", c), format!("A.{}", c), format!("{}.local", c)] {
+            if !f(s) {
+                return;
+            }
+        }
+    }
+}
+
 fn ab_names() -> Vec<Vec<&'static str>> {
     let mut v: Vec<Vec<&'static str>> = vec![vec![]];
     let mut frontier: Vec<Vec<&'static str>> = vec![vec![]];
@@ -238,11 +258,12 @@ fn check_local(s: &String, case: &mut Case) -> Result<(), Fail> {
 pub fn def() -> CheckDef {
     CheckDef {
         id: "C17",
-        rule: "bounded-exhaustive: all strings of length <= 6 (7 thorough) over {a,A,1,-,_,.,\\,é}; label lengths 0..=70 alone/inside a name/with edge hyphens; names of wire length 240..=260 from several label sizes; all 31x31 ordered pairs of names of <= 4 labels over {a,b}; 32 case variants of 'local' + near misses at every position. Non-trivial = at least one non-empty label (pairs: both non-root)",
+        rule: "bounded-exhaustive: all strings of length <= 6 (7 thorough) over {a,A,1,-,_,.,\\,é}; label lengths 0..=70 alone/inside a name/with edge hyphens; names of wire length 240..=260 from several label sizes; every character U+0080..U+07FF (and samples beyond) at the first / middle / last position of a label; all 31x31 ordered pairs of names of <= 4 labels over {a,b}; 32 case variants of 'local' + near misses at every position. Non-trivial = at least one non-empty label (pairs: both non-root)",
         assumptions: vec!["'letter' and 'digit' in the statement mean ASCII letters and digits (host name syntax)"],
         sections: vec![
             Box::new(EnumSection { name: "strings", rule: "all short strings", enumerate: enum_strings, check: check_text, exhaustive: true }),
             Box::new(EnumSection { name: "lengths", rule: "label and name length boundaries", enumerate: enum_lengths, check: check_text, exhaustive: true }),
+            Box::new(EnumSection { name: "non-ascii", rule: "non-ASCII characters at every position of a label", enumerate: enum_non_ascii, check: check_text, exhaustive: true }),
             Box::new(EnumSection { name: "suffix", rule: "all ordered pairs of small names", enumerate: enum_pairs, check: check_pair, exhaustive: true }),
             Box::new(EnumSection { name: "link-local", rule: "case variants and near misses of 'local'", enumerate: enum_local, check: check_local, exhaustive: true }),
         ],
